@@ -557,7 +557,9 @@ Section Proofs.
     Variable progs : list prog.
     Variable s0 : St.
     Variable Inv : St -> Prop.
-    Hypothesis Hprogs : Forall2 (fun p q => norm p = gprog q) progs qs.
+    (* a request either passes the gate, or (no user) goes straight to its handler *)
+    Hypothesis Hprogs : Forall2 (fun p q => norm p = gprog q \/
+                                            (norm p = norm (g_H q) /\ forall s, g_absent q s = false)) progs qs.
     Hypothesis HwfH : forall q, In q qs -> wf None (g_H q).
     Hypothesis HoneH : forall q, In q qs -> one_section (g_H q).
     Hypothesis absent_obs : forall q s s', In q qs -> obs s = obs s' -> g_absent q s = g_absent q s'.
@@ -591,8 +593,9 @@ Section Proofs.
     Lemma progs_wf : Forall (wf None) progs.
     Proof.
       apply Forall_forall. intros p Hp. destruct (In_nth_error _ _ Hp) as [i Hi].
-      destruct (Forall2_nth _ _ _ _ _ Hprogs Hi) as [q [Hq Hn]]. apply wf_of_norm. rewrite Hn.
-      apply gprog_wf. eapply nth_error_In; eauto.
+      destruct (Forall2_nth _ _ _ _ _ Hprogs Hi) as [q [Hq [Hn|[Hn _]]]]; apply wf_of_norm; rewrite Hn.
+      - apply gprog_wf. eapply nth_error_In; eauto.
+      - apply wf_norm. apply HwfH. eapply nth_error_In; eauto.
     Qed.
 
     Definition G (phs : list phase) (a : astate) (done : list nat) : Prop :=
@@ -604,7 +607,7 @@ Section Proofs.
            match ph with
            | Ph0 => norm pa = gprog q
            | PhA => pa = Acq Wr (Step (g_P q) (fun _ => Rel (g_H q)))
-           | PhH => pa = g_H q /\ g_absent q (fst a) = false
+           | PhH => norm pa = norm (g_H q) /\ g_absent q (fst a) = false
            | PhD => In i done
            end) /\
       (forall i, In i done -> nth_error phs i = Some PhD) /\
@@ -613,13 +616,25 @@ Section Proofs.
       (obs (fst a) = obs (fst acc) \/
        exists i q, nth_error phs i = Some PhH /\ nth_error qs i = Some q /\ obs (fst a) = obs (g_P q (fst acc))).
 
-    Lemma G_init : G (repeat Ph0 (length qs)) (s0, progs) [].
+    Lemma G_init : exists phs, G phs (s0, progs) [].
     Proof.
-      unfold G, spec_serial; simpl. rewrite repeat_length.
+      assert (Hgen : forall (ps : list prog) (qs' : list (greq St Resp)), Forall2 (fun p q => norm p = gprog q \/
+                                            (norm p = norm (g_H q) /\ forall s, g_absent q s = false)) ps qs' ->
+              exists phs, length phs = length qs' /\
+                (forall i ph, nth_error phs i = Some ph ->
+                   exists q pa, nth_error qs' i = Some q /\ nth_error ps i = Some pa /\
+                     ((ph = Ph0 /\ norm pa = gprog q) \/
+                      (ph = PhH /\ norm pa = norm (g_H q) /\ forall s, g_absent q s = false)))).
+      { induction 1 as [|p q ps qs' Hpq _ [phs [Hl Hp]]].
+        - exists []. split; auto. intros [|i] ph H; discriminate.
+        - destruct Hpq as [H|H]; [exists (Ph0 :: phs)|exists (PhH :: phs)];
+            (split; [simpl; auto|]); intros [|i] ph Hn; simpl in *; eauto;
+            inversion Hn; subst ph; exists q, p; auto. }
+      pose proof (Hgen _ _ Hprogs) as Hphs.
+      destruct Hphs as [phs [Hl Hp]]. exists phs.
+      unfold G, spec_serial; simpl.
       split; [auto|]. split; [eapply Forall2_len; eauto|]. split; [auto|]. split; [auto|]. split.
-      { intros i ph Hn. destruct (repeat_nth _ _ _ _ Hn) as [-> Hlt].
-        destruct (nth_error qs i) as [q|] eqn:Eq; [|apply nth_error_None in Eq; lia].
-        destruct (Forall2_nth_r _ _ _ _ _ Hprogs Eq) as [p [Hp Hnp]]. eauto. }
+      { intros i ph Hn. destruct (Hp _ _ Hn) as [q [pa [Eq [Epa [[-> H]|[-> [H Hab]]]]]]]; exists q, pa; auto. }
       split; [intros i []|]. split; [auto|]. split; [constructor|]. split; [intros i r []|]. left; auto.
     Qed.
 
@@ -647,7 +662,7 @@ Section Proofs.
             destruct (g_absent q sa) eqn:Eab; [reflexivity|]. split; auto.
             rewrite (absent_obs q _ _ Hq Hog). auto.
           - destruct (Hth _ _ Hj) as [q' [pa' [Eq' [Epa' Hph']]]]. exists q', pa'. rewrite nth_upd_other by auto.
-            split; auto. split; auto. destruct ph; auto. destruct Hph' as [-> Hab]. split; auto.
+            split; auto. split; auto. destruct ph; auto. destruct Hph' as [Hnn Hab]. split; auto.
             rewrite (absent_obs q' _ _ (nth_error_In _ _ Eq') Hog). auto. }
         split.
         { intros j Hj. rewrite nth_upd_other; auto. intro E; subst j. rewrite (Hdone _ Hj) in Eph. discriminate. }
@@ -669,7 +684,7 @@ Section Proofs.
         { intros j ph Hj. apply nth_upd in Hj. destruct Hj as [[-> ->]|[Hne Hj]].
           - exists q. rewrite nth_upd_same by auto. eexists. split; [auto|]. split; [reflexivity|]. split; auto.
           - destruct (Hth _ _ Hj) as [q' [pa' [Eq' [Epa' Hph']]]]. exists q', pa'. rewrite nth_upd_other by auto.
-            split; auto. split; auto. destruct ph; auto. destruct Hph' as [-> Hab]. split; auto.
+            split; auto. split; auto. destruct ph; auto. destruct Hph' as [Hnn Hab]. split; auto.
             rewrite (agree q' q _ (nth_error_In _ _ Eq') Hq HiP). auto. }
         split.
         { intros j Hj. rewrite nth_upd_other; auto. intro E; subst j. rewrite (Hdone _ Hj) in Eph. discriminate. }
@@ -685,10 +700,11 @@ Section Proofs.
           rewrite <- Ho. apply P_noop; auto.
           rewrite (absent_obs q _ _ Hq Ho). rewrite (agree q qw _ Hq Hqw (Inv_P _ _ Hqw His)). apply P_present; auto.
       - (* PhH: the handler's own section *)
-        destruct Hph as [-> Hab].
-        destruct (HoneH q Hq) as [m' [k' [Hn' Htail]]]. rewrite Hn in Hn'. inversion Hn'; subst m' k'.
+        destruct Hph as [Hnn Hab].
+        destruct (HoneH q Hq) as [m' [k' [Hn' Htail]]]. rewrite <- Hnn, Hn in Hn'. inversion Hn'; subst m' k'.
         destruct (Htail sa) as [r Hr].
-        pose proof (one_section_run _ _ _ _ _ Hn Hr) as Hrun.
+        assert (HnH : norm (g_H q) = Acq m k) by congruence.
+        pose proof (one_section_run _ _ _ _ _ HnH Hr) as Hrun.
         assert (Hkey : obs sa = obs (g_P q (fst acc))).
         { destruct Hrel as [Hl|[w [qw [Hw [Eqw Ho]]]]].
           - rewrite Hl. symmetry. apply P_noop; auto. rewrite <- (absent_obs q _ _ Hq Hl). auto.
@@ -709,7 +725,7 @@ Section Proofs.
             apply in_or_app. right. left. reflexivity.
           - destruct (Hth _ _ Hj) as [q' [pa' [Eq' [Epa' Hph']]]]. exists q', pa'. rewrite nth_upd_other by auto.
             split; auto. split; auto. destruct ph; auto.
-            + destruct Hph' as [-> Hab']. split; auto. rewrite Hsa'. apply stable; auto. eapply nth_error_In; eauto.
+            + destruct Hph' as [Hnn' Hab']. split; auto. rewrite Hsa'. apply stable; auto. eapply nth_error_In; eauto.
             + apply in_or_app. left. auto. }
         split.
         { intros j Hj. apply in_app_or in Hj. destruct Hj as [Hj|[<-|[]]].
@@ -756,7 +772,8 @@ Section Proofs.
     Proof.
       intros He Hfin.
       destruct (sections_atomic _ _ _ _ _ progs_wf He Hfin) as [a' [Hr [Hobs Hf2]]].
-      destruct (G_reach _ _ _ Hr _ _ G_init) as [phs [order [HG Hss]]]. simpl in HG.
+      destruct G_init as [phs0 HG0].
+      destruct (G_reach _ _ _ Hr _ _ HG0) as [phs [order [HG Hss]]]. simpl in HG.
       destruct HG as [Hlp [Hla [Hia [His [Hth [Hdone [Hmap [Hnd [Hres Hrel]]]]]]]]].
       assert (Hlen : length progs = length qs) by (eapply Forall2_len; eauto).
       assert (Hall : forall i ph, nth_error phs i = Some ph -> ph = PhD).
@@ -766,7 +783,7 @@ Section Proofs.
         destruct ph; auto; exfalso.
         - rewrite Hph in Hret. discriminate.
         - subst pa. discriminate.
-        - destruct Hph as [-> _]. destruct (HoneH q Hq) as [m [k [Hn' _]]]. congruence. }
+        - destruct Hph as [Hnn _]. destruct (HoneH q Hq) as [m [k [Hn' _]]]. congruence. }
       assert (Hsub : subseq order sch) by (eapply subseq_trans; [eauto|apply acq_order_subseq]).
       exists order. split.
       { apply NoDup_Permutation; auto using seq_NoDup. intro x. rewrite in_seq. split.
